@@ -171,6 +171,16 @@ pub fn run(tier: Tier) -> i32 {
             };
             rep.cmp(4);
             rep.outcome(hash_f64s(&t.1.iter().flatten().cloned().collect::<Vec<f64>>()));
+            // the same settings copied onto a scratch condition / engine with clone_from: same trajectories
+            if u.len() <= 8 && (j + (h.abs() * 4.0) as usize) % 4 == 0 {
+                for whole in [false, true] {
+                    rep.cmp(1);
+                    match catch(|| trajectories(&via_clone_from(&e, whole), u)) {
+                        Ok(Ok(t2)) if bits_eq2(&t2.0, &t.0) && bits_eq2(&t2.1, &t.1) && bits_eq2(&t2.2, &t.2) => {}
+                        _ => rep.violation("clone-from", format!("an engine that got its settings (half tone {}) through {}::clone_from onto a scratch object with other values generates other trajectories", h, if whole { "Engine" } else { "Condition" }), rp.clone()),
+                    }
+                }
+            }
             if t.1.len() != t0.1.len() {
                 rep.violation("durations", format!("{} frames with h={} vs {} without", t.1.len(), h, t0.1.len()), rp);
                 continue;
